@@ -13,6 +13,7 @@ func init() {
 			"(C05-c) the canonical 'All Connections' form is re-established by every growing ConnectionSet mutator and the representation is written only inside package common (rule C11-c); " +
 			"(C05-d) PortSet.Ports is the library's CanonicalSet and is assigned only from library constructors/operations. " +
 			"(C05-c-range) an interval built from runtime bounds (possibly empty: endPort below port) flows only into AddInterval / AddHole, which ignore an empty interval, never into ToSet(), which would yield a non-empty set of one empty interval. " +
+			"(C05-c-exact) the containment test that decides whether Subtract deletes a protocol entry compares numbered ports through the interval library's set comparisons only (a false negative leaves an empty port set in the map). " +
 			"NOT decided: ports within 1..65535 (rule values are not validated anywhere; no static value ranges), uniqueness of peer strings for colliding names, the library's partition algorithm."
 		rules.GuardedRowConstruction(p, r, "C05-a")
 		rules.PairLoopShape(p, r, "C05-a-loop")
